@@ -831,7 +831,7 @@ def sig_cli(f, which):
 # ------------------------------------------------------------------------------------------------
 def build_cases(seed, tier):
     rnd = random.Random(seed)
-    nb = {'m': 24, 'v': 16} if tier == 'quick' else {'m': 250, 'v': 150}
+    nb = {'m': 16, 'v': 12} if tier == 'quick' else {'m': 250, 'v': 150}
     per_kind = 1 if tier == 'quick' else 2
     cases = []
 
